@@ -203,7 +203,14 @@ def cstr(n: ast.AST) -> str:
             # dict((k, v) for ...) is the dict comprehension {k: v for ...}
             g = n.args[0]
             return cstr(ast.DictComp(key=g.elt.elts[0], value=g.elt.elts[1], generators=g.generators))
-        args = [term(a) for a in n.args]
+        cargs = list(n.args)
+        if f in ('sum', 'min', 'max', 'list', 'set', 'sorted', 'any', 'all', 'tuple', 'frozenset', 'len') and cargs:
+            g = cargs[0]
+            if isinstance(g, ast.GeneratorExp) and len(g.generators) == 1 and not g.generators[0].ifs \
+                    and isinstance(g.elt, ast.Name) and isinstance(g.generators[0].target, ast.Name) \
+                    and g.elt.id == g.generators[0].target.id:
+                cargs[0] = g.generators[0].iter          # (x for x in S) consumed as an iterable is S
+        args = [term(a) for a in cargs]
         if f in COMMUTATIVE_CALLS:
             args = sorted(args)
         kws = sorted('%s=%s' % (k.arg if k.arg else '**', term(k.value)) for k in n.keywords)
